@@ -770,6 +770,11 @@ func (e *Exec) runLoop(st *State, isInit bool) string {
 			continue
 		}
 		if len(st.frames) == 0 {
+			if st.sched != nil {
+				// interleaved mode: the running thread has ended
+				e.schedThreadEnd(st)
+				continue
+			}
 			return EndReturn
 		}
 		st.steps++
